@@ -480,7 +480,7 @@ impl Prop for C01 {
 
     fn runs(tier: Tier) -> u64 {
         match tier {
-            Tier::Quick => 40_000,
+            Tier::Quick => 20_000,
             Tier::Thorough => 1_500_000,
         }
     }
